@@ -219,6 +219,32 @@ def state_problems(case):
                         raise
                     probs.append(("hier:exception:%s" % type(e).__name__, "%s on %s (truncate=%s, bdspecs=%s) raised %r at %s:%d"
                                   % (form, geoname, truncate, bds, e, tb[-1].filename.split("/")[-1], tb[-1].lineno)))
+    # warm-object history: assemble, refine the SAME object once more (last event of the history), assemble again;
+    # must equal the assembly over a freshly built space
+    if hist and "mass" in case["forms"]:
+        try:
+            geo = make_geo("identity", M.dim)
+            hs_w = hierarchical.HSpace(c04._G["kvs"], truncate=False, disparity=c04._G["disp"], bdspecs=[(0, 0)])
+            for ev in hist[:-1]:
+                hs_w.refine(c04.marks_of(ev)[0])
+            got_general("mass", M.dim, hs_w, geo)
+            hs_w.dirichlet_dofs()
+            hs_w.refine(c04.marks_of(hist[-1])[0])
+            A_w = got_general("mass", M.dim, hs_w, geo)
+            hs_f = hierarchical.HSpace(c04._G["kvs"], truncate=False, disparity=c04._G["disp"], bdspecs=[(0, 0)])
+            for ev in hist:
+                hs_f.refine(c04.marks_of(ev)[0])
+            A_f = got_general("mass", M.dim, hs_f, geo)
+            ncmp += 1
+            if A_w.shape != A_f.shape or np.abs(A_w - A_f).max() > TOL * max(np.abs(A_f).max(), 1e-300):
+                probs.append(("hier:warm-object", "assembling, refining the same space object again and assembling again gives a "
+                              "different matrix than assembling over the freshly built space (stale index caches)"))
+        except Exception as e:
+            import traceback
+            tb = traceback.extract_tb(e.__traceback__)
+            if tb[-1].filename.startswith("/verif/"):
+                raise
+            probs.append(("hier:warm-object:exception:%s" % type(e).__name__, "%r" % (e,)))
     seen, out = set(), []
     for k, m in probs:
         if k not in seen:
